@@ -1471,6 +1471,38 @@ func c09R10(e *Engine) {
 		}
 		n++
 		construct := e.fname(fn) + ":skips-only-ascii-whitespace"
+		// how the decision is made: comparisons / a local byte predicate can be evaluated for every byte; a call into a
+		// library predicate is judged by what that library accepts; a lookup in a table filled at start-up cannot be
+		// evaluated without running that code and is left undecided (stated, not failed)
+		external, table := "", false
+		instrs(fn, func(in ssa.Instruction) {
+			switch x := in.(type) {
+			case *ssa.Call:
+				if g := x.Call.StaticCallee(); g != nil && e.fnRole(g) == "" && !isBuiltin(x) {
+					external = staticCalleeName(x)
+				}
+			case *ssa.IndexAddr:
+				if globalRoot(x.X) != nil {
+					table = true
+				}
+			case *ssa.Index:
+				if globalRoot(x.X) != nil {
+					table = true
+				}
+			case *ssa.Lookup:
+				if globalRoot(x.X) != nil {
+					table = true
+				}
+			}
+		})
+		if external != "" {
+			e.fail("R10", construct, e.pos(fn.Pos()), "which bytes are skipped between tokens is decided by %s: the unicode-aware predicates of the standard library also accept \\v, \\f, 0x85 and 0xA0 – unknown characters that must be rejected are swallowed instead", external)
+			continue
+		}
+		if table {
+			e.ob("R10", construct, e.pos(fn.Pos()), Pass, false, "the skipped bytes are looked up in a table filled at start-up: its contents cannot be established without running that code – not decided for this form")
+			continue
+		}
 		var skipped []int
 		undecided := false
 		for b := 0; b < 256; b++ {
